@@ -198,6 +198,16 @@ func (r *authRun) obs(o authObs) {
 	r.wobs.WriteByte('\n')
 }
 
+func (r *authRun) logscan() {
+	n, leaks, msgs := r.s.logScan()
+	if len(leaks) > 5 {
+		leaks = leaks[:5]
+	}
+	b, _ := json.Marshal(map[string]any{"kind": "logscan", "entries": n, "leaks": leaks, "messages": msgs})
+	r.wobs.Write(b)
+	r.wobs.WriteByte('\n')
+}
+
 func browserVisible(rec *httptest.ResponseRecorder) []string {
 	out := []string{rec.Header().Get("Location"), rec.Body.String()}
 	out = append(out, rec.Header().Values("Set-Cookie")...)
@@ -656,6 +666,7 @@ func runAuth(args []string) error {
 								r.login(host, xfh, path, q, true)
 							}
 						}
+						r.logscan()
 						total += r.n
 						r.s.close()
 					})
@@ -694,6 +705,7 @@ func runAuth(args []string) error {
 							}
 						}
 					}
+					r.logscan()
 					total += r.n
 					r.s.close()
 				})
